@@ -34,7 +34,7 @@ def window_sessions(rnd, n, thorough):
         # structure slices whose value bytes land in the last bytes below the connection size (structure replies carry a
         # 4-byte type field: the estimate that decides "fragment or not" must count it)
         eu, esz = ("Inner", 8) if S0 == 4000 else ("In12", 12)
-        heavy = S0 == 4000 and i % 8 != 0                      # 499-element structure reads are judged in one session per run only
+        heavy = S0 == 4000 and (i % 8 != 0 or not thorough)    # 499-element structure reads (about 3 minutes of TLC each): thorough tier only
         edge = {"name": "WE", "udt": eu, "dims": [4 if heavy else S0 // esz + 3]}
         sc = logix_rw.session(rnd, i, prefix="win", n_calls=0, big=big + [sbig, wb, edge], policy=pol, n_tags=2)
         calls = [{"api": "open"}]
@@ -133,7 +133,7 @@ def families(ctx, rnd, thorough, which):
     if "rw" in which or "long" in which:
         scs += bigindex_sessions(rnd, 4 if thorough else 2)
     if "window" in which:
-        scs += window_sessions(rnd, 300 if thorough else 28, thorough)
+        scs += window_sessions(rnd, 300 if thorough else 21, thorough)
     if "invalid" in which:
         for i in range(200 if thorough else 24):
             scs.append(logix_rw.session(rnd, 2000 + i, prefix="inv", n_calls=4, max_reqs=8, invalid_rate=0.4))
